@@ -1280,10 +1280,22 @@ func runTree(t Tree, useOrc bool, guests bool, quiet bool) (*verdict, int, *run)
 	r.quiet = quiet
 	hidden = map[int]string{}
 	r.roots()
+	// A step on which the MODEL and the real configurations disagree (broken correspondence) does not end the history:
+	// the rest of it runs against the direct monitors alone (every earlier node against its own earlier snapshot, guest
+	// views), so that a concrete failing history - which has priority - can still be found in the same tree.
+	var firstCorr *verdict
+	corrAt := -1
+	defer func() { _ = corrAt }()
 	for i, st := range t.Steps {
 		before := len(r.nodes)
 		if v := r.doStep(st); v != nil {
-			return v, i, r
+			if v.kind != "correspondence" {
+				return v, i, r
+			}
+			if firstCorr == nil {
+				firstCorr, corrAt = v, i
+			}
+			r.useOrc = false
 		}
 		if guests && len(r.nodes) > before {
 			if v := r.guestCheck(len(r.nodes)-1, true); v != nil {
@@ -1297,6 +1309,9 @@ func runTree(t Tree, useOrc bool, guests bool, quiet bool) (*verdict, int, *run)
 				return v, len(t.Steps) - 1, r
 			}
 		}
+	}
+	if firstCorr != nil {
+		return firstCorr, corrAt, r
 	}
 	return nil, -1, r
 }
@@ -1809,7 +1824,8 @@ func explore(nsteps int, guests bool, sample bool, choose func(r *run) (Step, bo
 	hidden = map[int]string{}
 	r.roots()
 	var t Tree
-	var bad *verdict
+	var bad, firstCorr *verdict
+	corrAt := -1
 	for len(t.Steps) < nsteps && bad == nil {
 		st, ok := choose(r)
 		if !ok {
@@ -1820,6 +1836,14 @@ func explore(nsteps int, guests bool, sample bool, choose func(r *run) (Step, bo
 		t.Steps = append(t.Steps, st)
 		before := len(r.nodes)
 		bad = r.doStep(st)
+		if bad != nil && bad.kind == "correspondence" {
+			// model and code disagree on this step: the history goes on against the direct monitors alone (see runTree)
+			if firstCorr == nil {
+				firstCorr, corrAt = bad, len(t.Steps)-1
+			}
+			bad = nil
+			r.useOrc = false
+		}
 		rep.Case(key)
 		what := st.Method
 		if st.Op == "inst" {
@@ -1844,6 +1868,8 @@ func explore(nsteps int, guests bool, sample bool, choose func(r *run) (Step, bo
 	r.close()
 	if bad != nil {
 		report(bad, t, len(t.Steps)-1)
+	} else if firstCorr != nil {
+		report(firstCorr, Tree{Steps: t.Steps[:corrAt+1]}, corrAt)
 	}
 }
 
